@@ -186,41 +186,95 @@ def _dotted_call(rest):
     return False
 
 
+CLAUSE = set("match optional where return with call yield set remove detach delete unwind union order limit skip create merge foreach".split())
+NEEDS_OPERAND = set("where set return with and or xor not remove delete unwind match yield as in by on limit skip call when then else".split())
+BAD_FOLLOWER = set("""match optional where return with call yield set remove detach delete unwind union order limit skip create merge on and or
+xor as in then else end when by""".split())
+
+
 def lint(text, supplied):
+    """Well-formedness as the property names it, decided on tokens:
+    balanced; nothing unexpanded; every $name supplied; every variable bound IN ITS SCOPE (a WITH clause at bracket depth 0 starts a new
+    scope holding only the variables it lists or aliases, `*` keeps all, UNION starts from nothing; patterns, AS, YIELD, UNWIND ... AS and
+    comprehensions bind); every clause keyword / boolean operator is followed by an operand; no dangling comma."""
     toks, stripped, closed, _ = lex(text)
-    bound, used = [], []
-    in_yield = False
+    scope, seg_b, seg_u, carry, unbound = [], [], [], [], []
+    star = in_items = in_yield = False
+    depth = 0
+    empty_clause = dangling = False
+
+    def close(reset):
+        nonlocal scope, seg_b, seg_u, in_items
+        for x in seg_u:
+            if x not in scope and x not in seg_b and x not in unbound:
+                unbound.append(x)
+        if reset:
+            scope = []
+        elif in_items:
+            scope = list(carry) + ((scope + seg_b) if star else [])
+        else:
+            scope = scope + seg_b
+        seg_b, seg_u, in_items = [], [], False
+
     for i, cur in enumerate(toks):
         p1 = toks[i - 1] if i >= 1 else None
         p2 = toks[i - 2] if i >= 2 else None
-        rest = toks[i + 1:i + 40]
-        nx = rest[0] if rest else None
+        nx = toks[i + 1] if i + 1 < len(toks) else None
+        # operands and commas
+        if cur[0] == "id" and _lower(cur[1]) in NEEDS_OPERAND:
+            if nx is None or (nx[0] == "id" and _lower(nx[1]) in BAD_FOLLOWER) or (nx[0] == "sym" and nx[1] in ")]},;|"):
+                empty_clause = True
+        if cur[0] == "sym":
+            if cur[1] == "," and (nx is None or (nx[0] == "sym" and nx[1] in ")]},")):
+                dangling = True
+            if cur[1] in "([{" and _sym(nx, ","):
+                dangling = True
         if cur[0] == "id":
             x = cur[1]
-            kw = _iskw(x)
+            lw = _lower(x)
+            kw = lw in KEYWORDS
+            if depth == 0:
+                with_clause = lw == "with" and not (_word(p1, "starts") or _word(p1, "ends"))
+                if lw in CLAUSE and (lw != "with" or with_clause) and in_items:
+                    close(False)
+                if lw == "union":
+                    close(True)
+                if with_clause:
+                    in_items, carry, star = True, [], False
             if in_yield and not kw:
-                if x not in bound:
-                    bound.append(x)
-                continue
-            in_yield = _lower(x) == "yield"
-            if kw:
-                continue
-            b1 = _sym(p1, "(") and not (p2 is not None and p2[0] == "id" and not _iskw(p2[1])) and not _sym(nx, ".") and not _sym(nx, "(")
-            b2 = _sym(p1, "[") and _sym(p2, "-")
-            b3 = _sym(p1, "[") and _word(nx, "in")
-            b4 = _word(p1, "as")
-            b6 = _sym(nx, "=") and not _sym(p1, ".")
-            u = (not _sym(p1, ".") and not _sym(p1, ":") and not _sym(nx, ":") and not _sym(nx, "(")
-                 and not (_sym(nx, ".") and _dotted_call(toks[i + 1:])) and not _word(p1, "index"))
-            if (b1 or b2 or b3 or b4 or b6) and x not in bound:
-                bound.append(x)
-            if u and x not in used:
-                used.append(x)
+                if x not in seg_b:
+                    seg_b.append(x)
+            else:
+                in_yield = lw == "yield"
+                if not kw:
+                    b1 = _sym(p1, "(") and not (p2 is not None and p2[0] == "id" and not _iskw(p2[1])) and not _sym(nx, ".") and not _sym(nx, "(")
+                    b2 = _sym(p1, "[") and _sym(p2, "-")
+                    b3 = _sym(p1, "[") and _word(nx, "in")
+                    b4 = _word(p1, "as")
+                    b6 = _sym(nx, "=") and not _sym(p1, ".")
+                    u = (not _sym(p1, ".") and not _sym(p1, ":") and not _sym(nx, ":") and not _sym(nx, "(")
+                         and not (_sym(nx, ".") and _dotted_call(toks[i + 1:])) and not _word(p1, "index"))
+                    if (b1 or b2 or b3 or b4 or b6) and x not in seg_b:
+                        seg_b.append(x)
+                    if u and x not in seg_u:
+                        seg_u.append(x)
+            if in_items and depth == 0 and not kw:
+                item_start = _word(p1, "with") or _word(p1, "distinct") or _sym(p1, ",")
+                item_end = nx is None or _sym(nx, ",") or (nx[0] == "id" and _lower(nx[1]) in CLAUSE)
+                if ((item_start and item_end) or _word(p1, "as")) and x not in carry:
+                    carry.append(x)
         elif cur[0] == "sym":
-            in_yield = in_yield and cur[1] in ",*"
+            c = cur[1]
+            in_yield = in_yield and c in ",*"
+            if in_items and depth == 0 and c == "*" and (_word(p1, "with") or _word(p1, "distinct")):
+                star = True
+            if c in "([{":
+                depth += 1
+            elif c in ")]}":
+                depth = max(0, depth - 1)
         else:
             in_yield = False
-    unbound = [x for x in used if x not in bound]
+    close(False)
     pars = []
     for t in toks:
         if t[0] == "par" and t[1] not in pars:
@@ -235,6 +289,10 @@ def lint(text, supplied):
         defects.append("missing-parameter")
     if unbound:
         defects.append("unbound-variable")
+    if empty_clause:
+        defects.append("empty-clause")
+    if dangling:
+        defects.append("dangling-comma")
     return {"defects": defects, "unbound": unbound, "missing": missing}
 
 
